@@ -172,7 +172,7 @@ fn reps_for(case: &QCase, explore: bool) -> usize {
 fn run_case(case: &QCase, rules: &[Rule], clo: &Closure, reps: usize) -> (Verdict, Option<QObs>) {
     let mut last: (Verdict, Option<QObs>) = (Verdict::NoVerdict("not run".into()), None);
     for _ in 0..reps.max(1) {
-        let obs = match run_query(rules, &case.facts, &case.goal, &case.cfg) {
+        let obs = match run_query_text(rules, &case.facts, &case.goal_text(), &case.cfg) {
             Ok(o) => o,
             Err(e) => return (Verdict::NoVerdict(e), None),
         };
@@ -448,7 +448,7 @@ impl Check for C09 {
         "C09"
     }
     fn rule(&self) -> String {
-        "random: Horn-style KBs of 1..=8 rules generated as GRL text (parsed by the real parser; the parsed rules must equal the generator's AST or the KB is skipped) over 8 typed fields (4 flat, 4 dotted `T.x`/`U.x`; bool/string/int literals; conditions And/Or to depth 2): an intended chain of depth 1..=6 plus distractors (wrong-value conclusions, dead ends, 2- and 3-cycles, alternative routes, parents with two sub-goals, arbitrary rules), 14 queries per KB: initial facts with/without the chain root and side facts (flat or nested objects), atomic goals `field op literal` over the six comparison operators aimed at / away from the chain, max_depth 0..=6, strategies dfs/bfs/iterative 6:2:2, max_solutions 1 (5/6) or 3 (1/6), memoisation off. Integer ==/!= atoms (1/6), string predicates (1/5), positive saliences (1/3), nested facts (1/6), a string value containing an operator token such as `a>=b` as fact and goal literal (1/30), one fact of the wrong type (1/40, oracle Undefined) are each on in a minority of KBs. A case with two or more top-level candidate rules is run 3x (candidate order comes from a HashSet). exhaustive: every ordered triple from a fixed pool of bool rules (8 quick / 12 thorough; chains, cycles, And, Or, wrong-value, `!=`) x 12 goals x max_depth (0,1,2,6 quick / 0..=6 thorough) x strategy (dfs quick / all three thorough) x initial facts ({A}, {} thorough). A case is non-trivial when the reference closure derives at least one fact that is not initial AND the engine has at least one candidate rule for the goal AND the engine answered; distinct by structural hash of (rules, facts, goal, config). thorough additionally runs a Miri workload on the BFS strategy (direct Goal trees with sub-goals through the raw-pointer queue, and BFS queries).".into()
+        "random: Horn-style KBs of 1..=8 rules generated as GRL text (parsed by the real parser; the parsed rules must equal the generator's AST or the KB is skipped) over 8 typed fields (4 flat, 4 dotted `T.x`/`U.x`; bool/string/int literals; conditions And/Or to depth 2): an intended chain of depth 1..=6 plus distractors (wrong-value conclusions, dead ends, 2- and 3-cycles, alternative routes, parents with two sub-goals, arbitrary rules), 14 queries per KB (ordering goals on integers are also asked with the literal in exponent notation, `0.5e1` for 5): initial facts with/without the chain root and side facts (flat or nested objects), atomic goals `field op literal` over the six comparison operators aimed at / away from the chain, max_depth 0..=6, strategies dfs/bfs/iterative 6:2:2, max_solutions 1 (5/6) or 3 (1/6), memoisation off. Integer ==/!= atoms (1/6), string predicates (1/5), positive saliences (1/3), nested facts (1/6), a string value containing an operator token such as `a>=b` as fact and goal literal (1/30), one fact of the wrong type (1/40, oracle Undefined) are each on in a minority of KBs. A case with two or more top-level candidate rules is run 3x (candidate order comes from a HashSet). exhaustive: every ordered triple from a fixed pool of bool rules (8 quick / 12 thorough; chains, cycles, And, Or, wrong-value, `!=`) x 12 goals x max_depth (0,1,2,6 quick / 0..=6 thorough) x strategy (dfs quick / all three thorough) x initial facts ({A}, {} thorough). A case is non-trivial when the reference closure derives at least one fact that is not initial AND the engine has at least one candidate rule for the goal AND the engine answered; distinct by structural hash of (rules, facts, goal, config). thorough additionally runs a Miri workload on the BFS strategy (direct Goal trees with sub-goals through the raw-pointer queue, and BFS queries).".into()
     }
     fn assumptions(&self) -> Vec<String> {
         vec![
@@ -513,6 +513,7 @@ impl Check for C09 {
                                             facts: f.clone(),
                                             goal: g.clone(),
                                             cfg: Cfg { max_depth: d, strat: s, max_solutions: 1, memo: false },
+                                            goal_spelling: None,
                                         };
                                         check_case(&case, &parsed, st);
                                     }
@@ -561,8 +562,17 @@ impl Check for C09 {
                     let goal = gen_goal(rng, &plan);
                     let multi = rng.chance(1, 6);
                     let cfg = gen_cfg(rng, &plan, multi);
-                    let case = QCase { kb: plan.kb.clone(), facts, goal, cfg };
+                    let mut case = QCase { kb: plan.kb.clone(), facts, goal, cfg, goal_spelling: None };
                     check_case(&case, &parsed, st);
+                    // the same question with its integer literal spelled `0.5e1`-style (ordering goals
+                    // only: integer equality goals are the subject of an open finding)
+                    if let (Lit::I(i), Op::Lt | Op::Le | Op::Gt | Op::Ge) = (&case.goal.lit, case.goal.op) {
+                        if *i != 0 && rng.chance(1, 2) {
+                            case.goal_spelling = Some(exponent_spelling(*i));
+                            st.count("queries_with_the_goal_literal_in_exponent_notation");
+                            check_case(&case, &parsed, st);
+                        }
+                    }
                 }
             }
         });
